@@ -105,7 +105,12 @@ def _bind_lambda(fv, st, lam):
     if not isinstance(lam, ast.Lambda):
         _err("quantifier needs a lambda")
     names = [a.arg for a in lam.args.args]
-    consts = [fv.fresh_int(n) for n in names]
+    # deterministic bound names per source node and nesting depth (see d_forall_arr)
+    qd = getattr(fv, "_qdepth", None)
+    if qd is None:
+        qd = fv._qdepth = {}
+    depth = qd.get(id(lam), 0)
+    consts = [z3.Int("%s?q%x_%d" % (n, id(lam) & 0xFFFFFF, depth)) for n in names]
     return names, consts
 
 
@@ -123,7 +128,11 @@ def d_forall(E, fv, st, node, prog):
         s.assumes = st.assumes
         s.env[names[0]] = SInt(k)
         s.guards = st.guards + [k >= lo, k < hi]
-        body = fv.to_bool(fv.ev(lam.body, s, False))
+        fv._qdepth[id(lam)] = fv._qdepth.get(id(lam), 0) + 1
+        try:
+            body = fv.to_bool(fv.ev(lam.body, s, False))
+        finally:
+            fv._qdepth[id(lam)] -= 1
         return SBool(z3.ForAll([k], z3.Implies(z3.And(k >= lo, k < hi), body)))
     lam = args[0]
     names, consts = _bind_lambda(fv, st, lam)
@@ -131,7 +140,11 @@ def d_forall(E, fv, st, node, prog):
     s.assumes = st.assumes
     for n, c in zip(names, consts):
         s.env[n] = SInt(c)
-    body = fv.to_bool(fv.ev(lam.body, s, False))
+    fv._qdepth[id(lam)] = fv._qdepth.get(id(lam), 0) + 1
+    try:
+        body = fv.to_bool(fv.ev(lam.body, s, False))
+    finally:
+        fv._qdepth[id(lam)] -= 1
     pats = []
     for kwd in node.keywords:
         if kwd.arg == "pattern":
@@ -152,12 +165,22 @@ def d_forall_arr(ndim):
         """forall over integer arrays of rank ndim (bound variable is an array value)"""
         lam = node.args[0]
         names = [a.arg for a in lam.args.args]
-        consts = [fv.fresh(n, arr_sort(I, ndim)) for n in names]
+        # bound names are a function of the quantifier's source node (and nesting depth), so that two evaluations
+        # of the same specification text on the same arguments are the *same* term for the solver
+        qd = getattr(fv, "_qdepth", None)
+        if qd is None:
+            qd = fv._qdepth = {}
+        depth = qd.get(id(lam), 0)
+        qd[id(lam)] = depth + 1
+        consts = [z3.Const("%s?q%x_%d" % (n, id(lam) & 0xFFFFFF, depth), arr_sort(I, ndim)) for n in names]
         s = st.fork()
         s.assumes = st.assumes
         for n, c in zip(names, consts):
             s.env[n] = SArrVal("i8", [z3.IntVal(0)] * ndim, {"v": c})
-        body = fv.to_bool(fv.ev(lam.body, s, False))
+        try:
+            body = fv.to_bool(fv.ev(lam.body, s, False))
+        finally:
+            qd[id(lam)] = depth
         pats = []
         for kwd in node.keywords:
             if kwd.arg == "pattern":
@@ -173,7 +196,10 @@ def d_forall_arr(ndim):
                 pats.append(z3.MultiPattern(*terms) if len(terms) > 1 else terms[0])
                 pats.extend(extra)
         if pats:
-            return SBool(z3.ForAll(consts, body, patterns=pats))
+            try:
+                return SBool(z3.ForAll(consts, body, patterns=pats))
+            except z3.Z3Exception:
+                pass  # a pattern containing a lambda term (array built by np.full / a slice store) is not admissible
         return SBool(z3.ForAll(consts, body))
 
     return f
@@ -325,10 +351,13 @@ def d_instantiate(E, fv, st, node, prog):
     s.heap = st.heap
     for v, (n, ty) in zip(argvals, sd.params):
         s.env[n] = E.spec_param_value(fv, st, v, ty)
-    wit = fv.ev(node.args[1], st, False)
-    if isinstance(wit, SArr):
-        wit = fv.arr_value(st, wit)
-    s.env[lam.args.args[0].arg] = wit
+    if len(node.args) - 1 != len(lam.args.args):
+        _err("instantiate: one witness per bound array is needed")
+    for la, wn in zip(lam.args.args, node.args[1:]):
+        wit = fv.ev(wn, st, False)
+        if isinstance(wit, SArr):
+            wit = fv.arr_value(st, wit)
+        s.env[la.arg] = wit
     inst = fv.to_bool(fv.ev(lam.body, s, False))
     st.assume(z3.Implies(whole, inst))
     return NONE
@@ -1155,12 +1184,16 @@ def method(E, fv, st, recv, name, node, prog):
             shp = fv.arr_shape(st, recv)
             if len(shp) != 2:
                 _err("ravel of non-2-D array")
-            USED.add("ndarray.ravel() of a C-contiguous 2-D array: length P*N, and reshaping it back gives the array (UNRAVEL(RAVEL(a,P,N),P,N) == a on [0,P)x[0,N)); every element of the result is an element of the array")
+            USED.add("ndarray.ravel() of a C-contiguous 2-D array: length P*N, and reshaping it back gives the array (UNRAVEL(RAVEL(a,P,N),P,N) == a on [0,P)x[0,N)); every element of the result is an element of the array; reshaping depends on the first P*N entries only")
             o = st.heap[recv.loc]
             g = nested_select(o.comps["v"], recv.prefix)
             r = fv.fresh("ravel", z3.ArraySort(I, I))  # named so that it can appear in patterns
             st.assume(r == RAVELF(g, shp[0], shp[1]))
             st.assume(UNRAVELF(r, shp[0], shp[1]) == _canon2_term(g, shp[0], shp[1]))
+            # reshaping reads the first P*N entries only: a key that agrees with the ravel there reshapes to the same array
+            k_ = fv.fresh("k", z3.ArraySort(I, I))
+            t_ = fv.fresh_int("t")
+            st.assume(z3.ForAll([k_], z3.Implies(z3.ForAll([t_], z3.Implies(z3.And(t_ >= 0, t_ < shp[0] * shp[1]), z3.Select(k_, t_) == z3.Select(r, t_))), UNRAVELF(k_, shp[0], shp[1]) == UNRAVELF(r, shp[0], shp[1])), patterns=[UNRAVELF(k_, shp[0], shp[1])]))
             fv.counter += 1
             rh = z3.Function("ravel_row!%d" % fv.counter, I, I)
             rj = z3.Function("ravel_col!%d" % fv.counter, I, I)
